@@ -124,7 +124,7 @@ func cmdVerify(args []string) {
 			seen[k] = true
 		}
 		for k, f := range w.Funcs {
-			if !seen[k] && f.Parent() == nil {
+			if !seen[k] && f.Parent() == nil && !w.InlineOnly(f) {
 				keys = append(keys, k)
 			}
 		}
